@@ -57,6 +57,9 @@ example : leValue [0xef, 0xcd, 0xab, 0x89] = 0x89abcdef := by decide
 example : (⟨[0xef, 0xcd, 0xab, 0x89], 0, 0⟩ : BS).WF := by decide
 /-- one bit too many: the model reports the out-of-bounds read -/
 example : (runCuts 32 ⟨[0xef, 0xcd, 0xab, 0x89], 0, 0⟩ [4, 12, 17]).2.2 = true := by decide
+/-- `count ≤ w` is necessary: a 40-bit cut with `uint_type = unsigned` shifts by `done = 32` -/
+example : (BS.cut 32 ⟨[1, 2, 3, 4, 5, 6, 7, 8], 0, 0⟩ 40).2.2 = true := by decide
+example : (BS.cut 64 ⟨[1, 2, 3, 4, 5, 6, 7, 8], 0, 0⟩ 40) = (0x0504030201, ⟨[1, 2, 3, 4, 5, 6, 7, 8], 5, 0⟩, false) := by decide
 /-- `safe_cut` clamps instead -/
 example : (BS.safeCut 32 ⟨[0xef, 0xcd, 0xab, 0x89], 2, 0⟩ 17) = (0x89ab, ⟨[0xef, 0xcd, 0xab, 0x89], 4, 0⟩, false) := by decide
 example : (BS.safeCut 32 ⟨[0xef, 0xcd, 0xab, 0x89], 4, 0⟩ 5) = (0, ⟨[0xef, 0xcd, 0xab, 0x89], 4, 0⟩, false) := by decide
